@@ -5,7 +5,7 @@ CONSTANTS
   Spds = {1, 2}
   Heads = {0}
   HVals = {0, 2000}
-  Dirs = {"fwd", "rev"}
+  Dirs = {"fwd"}
   TieVals = {FALSE}
   MaxBad = 0
   Limits <- NoLimits
